@@ -18,8 +18,7 @@ THEOREMS = ["GitAi.Sys.no_invention", "GitAi.Sys.ghost_only_from_agent_edit", "G
             "GitAi.Sys.witness_path_checkout_loses_line_removed_after_staging"]
 # findings the line-identity model cannot see (token level / commit coordinates): runs in which the content oracle
 # reports one of them are not held against the model
-REINDENT_SIG = "reconstruction-credits-reindented-human-line-below-ai-line"
-EXPLAINED = ("reconstruction-keeps-ai-on-line-rewritten-by-person", "line-added-by-commit-was-modified-again-unstaged", REINDENT_SIG)
+EXPLAINED = ("reconstruction-keeps-ai-on-line-rewritten-by-person", "line-added-by-commit-was-modified-again-unstaged")
 SESS = ["s1", "s2"]
 HASH2S = {S.hash_of(s): s for s in SESS}
 
@@ -452,21 +451,11 @@ class Walk:
             mine |= self.ai_lines.get(q, {}).get(s, set())
         return any(t not in now for t in mine)
 
-    def line_above_is_sessions(self, p, ln, s):
-        lines = self.read_lines(p) if self.r.exists(p) else []
-        return 2 <= ln <= len(lines) + 1 and ln - 2 < len(lines) and norm(lines[ln - 2]) in self.wrote[s]
-
     def fail(self, kind, where, sha, p, ln, text, s):
         base = p[:-6] if p.endswith(".moved") else p
         if text is not None and (text.lstrip().startswith("hum-") or self.is_tweak_of_own(text, s)) and \
                 (p in self.recon_taint or base in self.recon_taint) and self.session_line_gone(p, base, s):
             sig = "reconstruction-keeps-ai-on-line-rewritten-by-person"
-        elif text is not None and text != text.lstrip() and text.lstrip().startswith("hum-") and \
-                (p in self.recon_reindent or base in self.recon_reindent) and self.line_above_is_sessions(p, ln, s):
-            # known finding: a person re-indented a person's line that directly follows a line of session s; a
-            # reconstruction through a diff (reset --soft/--mixed, amend, stash pop, replay) lets the inserted indentation
-            # inherit the attribution of the line break in front of it and nothing else on the line is attributed
-            sig = REINDENT_SIG
         elif (kind == "note" and ln in self.overlap.get(sha, {}).get(p, set())) or \
                 (kind == "blame" and any(p in ov or base in ov for ov in self.overlap.values())):
             sig = "line-added-by-commit-was-modified-again-unstaged"
